@@ -133,26 +133,41 @@ impl Ctx {
 
     /// count one generated case under a class label
     pub fn eval(&self, label: &str) {
+        if frozen() {
+            return;
+        }
         self.evals.fetch_add(1, Ordering::Relaxed);
         *self.labels.lock().unwrap().entry(label.to_string()).or_insert(0) += 1;
     }
 
     /// count a class label without counting an evaluation
     pub fn label(&self, label: &str) {
+        if frozen() {
+            return;
+        }
         *self.labels.lock().unwrap().entry(label.to_string()).or_insert(0) += 1;
     }
 
     pub fn label_n(&self, label: &str, n: u64) {
+        if frozen() {
+            return;
+        }
         *self.labels.lock().unwrap().entry(label.to_string()).or_insert(0) += n;
     }
 
     pub fn add_evals(&self, n: u64) {
+        if frozen() {
+            return;
+        }
         self.evals.fetch_add(n, Ordering::Relaxed);
     }
 
     /// register a case that is non-trivial by the check's rule; distinctness
     /// is by the hash of `key`
     pub fn nontrivial(&self, key: &[u8]) {
+        if frozen() {
+            return;
+        }
         let h = Sha256::digest(key);
         let mut k = [0u8; 12];
         k.copy_from_slice(&h[..12]);
@@ -166,18 +181,24 @@ impl Ctx {
 
     /// keep up to 2 samples per label (40 overall)
     pub fn sample(&self, label: &str, f: impl FnOnce() -> Value) {
+        if frozen() {
+            return;
+        }
         let mut s = self.samples.lock().unwrap();
         let total: usize = s.values().map(|v| v.len()).sum();
-        if total >= 40 {
+        if total >= 60 {
             return;
         }
         let e = s.entry(label.to_string()).or_default();
-        if e.len() < 2 {
+        if e.is_empty() {
             e.push(f());
         }
     }
 
     pub fn excluded(&self, label: &str) {
+        if frozen() {
+            return;
+        }
         *self
             .excluded
             .lock()
@@ -428,6 +449,36 @@ pub struct Prop<V: 'static> {
     pub name: &'static str,
     pub strat: fn(Tier) -> BoxedStrategy<V>,
     pub check: fn(&Ctx, &V) -> PResult,
+    /// shrink budget (re-executions of the check) after a failure
+    pub max_shrink: u32,
+}
+
+impl<V: 'static> Prop<V> {
+    pub fn new(
+        name: &'static str,
+        strat: fn(Tier) -> BoxedStrategy<V>,
+        check: fn(&Ctx, &V) -> PResult,
+    ) -> Self {
+        Prop {
+            name,
+            strat,
+            check,
+            max_shrink: 1500,
+        }
+    }
+    pub fn shrink(mut self, n: u32) -> Self {
+        self.max_shrink = n;
+        self
+    }
+}
+
+thread_local! {
+    /// set while a shard is shrinking a failure: counters are frozen
+    static FROZEN: std::cell::Cell<bool> = const { std::cell::Cell::new(false) };
+}
+
+fn frozen() -> bool {
+    FROZEN.with(|f| f.get())
 }
 
 pub trait PropDyn: Sync {
@@ -447,13 +498,21 @@ where
     fn run(&self, ctx: &Ctx, cases: u32, shards: usize) {
         let shards = shards.max(1);
         let per = cases.div_ceil(shards as u32).max(1);
+        // set by the first shard that meets a failure: the others stop
+        // generating and leave the shrinking to it
+        let stop = AtomicBool::new(false);
+        let stop = &stop;
         std::thread::scope(|s| {
             for shard in 0..shards {
                 let name = self.name;
                 let strat_fn = self.strat;
                 let check = self.check;
+                let max_shrink = self.max_shrink;
                 s.spawn(move || {
-                    run_shard(ctx, name, strat_fn, check, per, shard as u64)
+                    run_shard(
+                        ctx, name, strat_fn, check, per, shard as u64,
+                        max_shrink, stop,
+                    )
                 });
             }
         });
@@ -474,9 +533,12 @@ fn run_shard<V>(
     check: fn(&Ctx, &V) -> PResult,
     cases: u32,
     shard: u64,
+    max_shrink: u32,
+    stop: &AtomicBool,
 ) where
     V: Debug + Clone + Serialize + 'static,
 {
+    FROZEN.with(|f| f.set(false));
     let seed =
         splitmix(ctx.seed ^ name_hash(name) ^ splitmix(shard.wrapping_add(1)));
     let mut seed_bytes = [0u8; 32];
@@ -488,7 +550,7 @@ fn run_shard<V>(
         cases,
         failure_persistence: None,
         rng_seed: RngSeed::Fixed(seed),
-        max_shrink_iters: 2000,
+        max_shrink_iters: max_shrink,
         max_global_rejects: 1_000_000,
         ..Config::default()
     };
@@ -498,6 +560,10 @@ fn run_shard<V>(
     // signature of the first failure: shrinking keeps to it
     let first: Mutex<Option<Fail>> = Mutex::new(None);
     let result = runner.run(&strat, |v| {
+        if stop.load(Ordering::Relaxed) && first.lock().unwrap().is_none() {
+            // another shard is already shrinking a failure of this property
+            return Ok(());
+        }
         let r = std::panic::catch_unwind(std::panic::AssertUnwindSafe(|| {
             check(ctx, &v)
         }));
@@ -516,8 +582,12 @@ fn run_shard<V>(
                     return Ok(());
                 }
                 let mut g = first.lock().unwrap();
+                FROZEN.with(|fz| fz.set(true));
                 match &*g {
                     None => {
+                        if stop.swap(true, Ordering::Relaxed) {
+                            return Ok(());
+                        }
                         *g = Some(f.clone());
                         Err(TestCaseError::fail(f.sig))
                     }
@@ -531,6 +601,7 @@ fn run_shard<V>(
             }
         }
     });
+    FROZEN.with(|f| f.set(false));
     match result {
         Ok(()) => {}
         Err(TestError::Fail(_, v)) => {
